@@ -679,6 +679,9 @@ func (s *Server) notePairConds(t *Table, conds []cond, bp *boundParams, tx *Tx) 
 }
 
 func (s *Server) execNative(p *prepared, bp *boundParams, tx *Tx) (*rowset, string, *PGError) {
+	if p.st.lits != nil {
+		bp = &boundParams{vals: p.st.lits}
+	}
 	switch p.st.native {
 	case "current_database":
 		return &rowset{cols: p.result, rows: [][]Value{{"verif"}}}, "SELECT 1", nil
